@@ -205,14 +205,39 @@ PROPS = {
                              "(assumed)", "xid generates well-formed ids (assumed)"],
         assumptions=["crash points of the key-value items are the states between atomic Sets"],
     ),
+    "C16": dict(
+        modules=["HT.Props.C16"],
+        streams=["c16agent"],
+        rule="agent sessions against the real session loop (verif hook) over a loopback TCP pair: one connection with "
+             "0..20 data messages of 0..4000 bytes; missing eof, data for unknown connections, data after eof, duplicate "
+             "hello, ping, udp relay; every interleaving (thorough) / every 4th (quick) of two connections' message "
+             "sequences for six address-pair shapes incl. look-alike pairs (10.0.0.1:22+21.2.3.4 vs 10.0.0.1:222+1.2.3.4) "
+             "and IPv6; seeded 1..4 connections with random interleavings, >= 2 left open at disconnect; the model side "
+             "also encodes the messages and re-parses the byte stream with the Lean codec; non-trivial = at least one "
+             "connection announced; distinct = distinct case line",
+        trusted=COMMON_TB + ["verif hook listener/agent/verif_hooks.go",
+                             "libdisco transport replaced by a plain TCP pair (noise handshake and encryption not exercised)",
+                             "github.com/honeytrap/protocol encoder/decoder (library, compared through the codec runs)"],
+        assumptions=["the session model is sequential; the reader wake-up hand-off is observed, not modelled"],
+    ),
 }
 
-HOOK_COMMITS = ["0596fc6", "c47bf54", "a8020ca", "beeea88"]
+HOOK_COMMITS = ["0596fc6", "c47bf54", "a8020ca", "beeea88", "49bef1d"]
 
 NOT_BUILT = "check not built yet in this round (design in DESIGN.md section 7); not claimed until its theorems and correspondence stream exist"
 NOT_APPLICABLE = {("C%02d" % i): NOT_BUILT for i in range(1, 21)}
 
 MANIFEST_TEXT = {
+    "C16": dict(
+        text="Lean theorems: every message type decodes to what was encoded (any address length, port, payload < 65536) and "
+             "a frame is parsed off the stream exactly; for every message sequence (any interleaving of any number of "
+             "connections) the connections of an address pair hold exactly what the messages carrying that pair's addresses "
+             "alone produce, in order; eof touches no other pair; disconnect ends all. Tied to the real session loop and codec.",
+        design_ref="DESIGN.md section 7, C16",
+        note="Partial: the session model is sequential; goroutine hand-off (lost wake-up) is exercised by the runs and was "
+             "repaired by a fix commit, not proved absent. libdisco is not exercised.",
+        technique="Lean 4 proof (codec round trip, projection/commutation over the table) + differential correspondence",
+    ),
     "C18": dict(
         text="Lean theorems: for every content of the token file (absent, empty, any prefix, garbage) a start comes up with a "
              "well-formed token and every later start, whatever it generates, reports the same one (induction over restart "
